@@ -46,5 +46,18 @@ Theorem C01w_frozen_stable : forall progs cl c0 sched,
   frozen_stable (run (init progs cl c0) sched).
 Proof. exact frozen_stable_reachable. Qed.
 
+(* non-vacuity: a reachable world in which the last reader has converted itself to a writer and is about to evaluate a
+   queued waiter's condition; and one in which a timed-out waiter is inside the frozen window *)
+Example C01w_example_converted : exists progs sched,
+  let w := run (init progs (fun a => a) 0) sched in
+  holds w 1%nat W /\ conv (get w 1%nat) = true /\ (exists m u, t_pc (get w 1%nat) = UsEval m u /\ u_rest u = [0%nat]) /\
+  is_eval (snd (step w (exT 1))) = true /\ excl w.
+Proof. exact example_converted. Qed.
+Example C01w_example_frozen : exists progs sched old,
+  let w := run (init progs (fun a => a) 0) sched in
+  frozen_old (t_pc (get w 0%nat)) = Some old /\ queue w = [0%nat] /\ frozen w.
+Proof. exact example_frozen. Qed.
+
+Print Assumptions C01w_example_converted. Print Assumptions C01w_example_frozen.
 Print Assumptions C01w_word_agrees. Print Assumptions C01w_exclusion.
 Print Assumptions C01w_frozen. Print Assumptions C01w_frozen_stable.
